@@ -1583,7 +1583,8 @@ Qed.
 Lemma pstep_ok kl p o : pstate_ok p -> o <> PAutoSave false ->
   pstate_ok (fst (pstep succ subject manifest cfg_fixed kl p o)).
 Proof.
-  intros (Hr & Hs & Ha) Hne. destruct o as [o| |b|early order k].
+  intros (Hr & Hs & Ha) Hne. destruct o as [o| |b|early order k|bad].
+  5: { cbn [pstep fst]. split; [exact Hr|split; assumption]. }
   - destruct o as [n|n t|t|n| |b|s| |]; cbn [pstep].
     + pose proof (step_refs_ok kl (mem p) (OPush n) Hr) as Hr'. cbn [step] in Hr'.
       unfold push in *. destruct (memb n (blobs (mem p))) eqn:E; cbn [fst] in *.
